@@ -1641,7 +1641,16 @@ class Controller:
                     self.log.info("CompletionCheck for stage %d returned True, stopping components in same stage" % (
                         index
                     ))
-                    self._stopComponents(current_components, False)
+                    with self.comp_lock:
+                        # VV: Components which have not been staged-in yet are not observed by the controller: if
+                        #     _stopComponents() finish()es them nobody ever adds them to comp_done and run() waits
+                        #     for them forever. Fake-finish them (exactly what finishedCheck() does when it stops a
+                        #     stage) so that they go through finishedCheck(), then stop the active components
+                        for comp in current_components:
+                            if comp not in self.comp_staged_in and comp.finishCalled is False:
+                                self._fake_finish_with_state(comp, experiment.model.codes.SHUTDOWN_STATE)
+
+                        self._stopComponents(current_components, False)
 
                 return x
 
